@@ -217,6 +217,103 @@ def fileFormatDoc {τ} (c : Codec τ) (fuel : Nat) (ctx : Ctx) (src : τ) : Exce
       | none => .error (typeError "formatted document is not serializable")
       | some t => .ok t
 
+/-! ### Encodings: the file-level `fileformat{json,yaml}` step
+
+  `FileInRewriterStep.__init__` derives two encodings from three options; `ObjectRewriter.in_to_out`
+  reads the source with the IN encoding and writes the result with the OUT encoding — whether it
+  writes straight to `out_path` or to the temp file that replaces `in_path` (no out / out is the same
+  file). The model keeps, next to the text of a file, the encoding its bytes are in. -/
+
+/-- A file on disk: its text and the encoding the bytes are in. -/
+structure Stored (τ : Type) where
+  enc : String
+  text : τ
+  deriving Repr, DecidableEq
+
+/-- `open(path, encoding=e).read()`: the text, if `e` is the encoding the bytes are in. (Idealised:
+    decoding with another encoding is an error; the correspondence uses it only on the positive side,
+    with non-ASCII content.) -/
+def Stored.readAs {τ} (s : Stored τ) (e : String) : Option τ := if s.enc = e then some s.text else none
+
+/-- `encoding`, `encodingIn`, `encodingOut` of the step's input. -/
+structure EncOpts where
+  encoding : Option String := none
+  encodingIn : Option String := none
+  encodingOut : Option String := none
+  deriving Repr, DecidableEq
+
+/-- `encoding = root_dict.get('encoding', config.default_encoding)`;
+    `self.encoding_in = root_dict.get('encodingIn', encoding)`. -/
+def EncOpts.inEnc (o : EncOpts) (dflt : String) : String := o.encodingIn.getD (o.encoding.getD dflt)
+/-- `self.encoding_out = root_dict.get('encodingOut', encoding)`. -/
+def EncOpts.outEnc (o : EncOpts) (dflt : String) : String := o.encodingOut.getD (o.encoding.getD dflt)
+
+/-- Where the result of `in_to_out(in_path, out_path)` ends up: `out_path` when given (truthy), else
+    `in_path` itself (via the temp file). `out_path` naming the same file as `in_path` is `in_path`. -/
+def targetOf (inp : String) (out : Option String) : String :=
+  match out with
+  | none => inp
+  | some o => if o = "" then inp else o
+
+/-- `ObjectRewriter.in_to_out(in_path, out_path)` at file level, on either route. -/
+def fileFormatFile {τ} (c : Codec τ) (fuel : Nat) (ctx : Ctx) (files : Files (Stored τ))
+    (inp : String) (out : Option String) (o : EncOpts) (dflt : String) : Except Exc (Files (Stored τ)) :=
+  match files.get? inp with
+  | none => .error ⟨"FileNotFoundError", inp⟩
+  | some s =>
+    match s.readAs (o.inEnc dflt) with
+    | none => .error ⟨"UnicodeDecodeError", inp⟩
+    | some src =>
+      match fileFormatDoc c fuel ctx src with
+      | .error e => .error e
+      | .ok t => .ok (files.set (targetOf inp out) ⟨o.outEnc dflt, t⟩)
+
+/-! ### Sessions: several file operations in one process
+
+  A `Codec` is a pair of FUNCTIONS: what `dec` returns depends on the text alone — not on which
+  files were read or written earlier in the process. (The real loaders are objects; that the steps use
+  them statelessly — a fresh loader per call, or one whose settings a document cannot change — is an
+  assumption the correspondence checks with sessions, see harness/props/c16.py.) -/
+
+inductive SOp where
+  | write (f : Format) (ctx : Ctx)
+  | fetch (f : Format) (ctx2 : Ctx)
+  | format (f : Format) (ctx : Ctx) (inp : String) (out : Option String)
+  deriving Repr
+
+inductive SObs where
+  | wrote
+  | fetched (ctx : Ctx)
+  | formatted
+  | failed (e : Exc)
+  deriving Repr
+
+/-- One operation: the files afterwards and what the step did. -/
+def stepS {τ} (c : Format → Codec τ) (fuel : Nat) (files : Files τ) : SOp → Files τ × SObs
+  | .write f ctx =>
+    match fileWrite f (c f) fuel ctx files with
+    | .ok fs => (fs, .wrote)
+    | .error e => (files, .failed e)
+  | .fetch f ctx2 =>
+    match fetch f (c f) fuel ctx2 files with
+    | .ok cx => (files, .fetched cx)
+    | .error e => (files, .failed e)
+  | .format f ctx inp out =>
+    match files.get? inp with
+    | none => (files, .failed ⟨"FileNotFoundError", inp⟩)
+    | some src =>
+      match fileFormatDoc (c f) fuel ctx src with
+      | .ok t => (files.set (targetOf inp out) t, .formatted)
+      | .error e => (files, .failed e)
+
+/-- A pipeline run: the operations one after the other; only the FILES carry over. -/
+def runSession {τ} (c : Format → Codec τ) (fuel : Nat) : Files τ → List SOp → Files τ × List SObs
+  | files, [] => (files, [])
+  | files, op :: ops =>
+    let r := stepS c fuel files op
+    let r' := runSession c fuel r.1 ops
+    (r'.1, r.2 :: r'.2)
+
 /-- The ideal codec over values: what the correspondence uses for the three formats when only the
     glue is compared (representability is decided per format by the driver). -/
 def Codec.ideal : Codec Val := { enc := some, dec := some }
